@@ -22,15 +22,19 @@ type SchemaReq struct {
 	Name    string `json:"n"`
 	Text    string `json:"t"`
 	SelfAdd bool   `json:"s,omitempty"` // register the schema under its own name as well (AddType(Name, itself)), as the repository's tests do
+	Opt     bool   `json:"o,omitempty"` // create THIS schema object with jschema.KeysAreOptionalByDefault()
 }
 
 type Req struct {
 	ID      int         `json:"id"`
 	Schemas []SchemaReq `json:"schemas"`
 	Types   [][2]string `json:"types"` // name, text: AddType'd (as fresh objects) to every schema, in this order
-	Rules   [][2]string `json:"rules"` // enum rules name, text: AddRule'd to every schema and every type
-	Docs    []string    `json:"docs"`  // documents validated against every schema that passes Check
-	Example bool        `json:"ex"`    // call Example() and Validate(Example()) on every schema that passes Check
+	// TypeOpts[i]: the object of Types[i] is created with jschema.KeysAreOptionalByDefault() (absent = none is). The
+	// option belongs to the one object: it is NOT inherited from / by the schema the type is added to.
+	TypeOpts []bool      `json:"topts,omitempty"`
+	Rules    [][2]string `json:"rules"` // enum rules name, text: AddRule'd to every schema and every type
+	Docs     []string    `json:"docs"`  // documents validated against every schema that passes Check
+	Example  bool        `json:"ex"`    // call Example() and Validate(Example()) on every schema that passes Check
 	// Linked: "the way an API project registers its types": for every schema a fresh universe of type
 	// objects is built in which EVERY type has every type (itself included) AddType'd; a SelfAdd schema
 	// IS the universe's object of that name, any other schema gets the universe's objects added.
@@ -98,11 +102,21 @@ func call(f func() string) string {
 	}
 }
 
+// newSchema: one schema object with its own setting of the option.
+func newSchema(name, text string, opt bool) *jschema.Schema {
+	if opt {
+		return jschema.New(name, text, jschema.KeysAreOptionalByDefault())
+	}
+	return jschema.New(name, text)
+}
+
+func (req *Req) typeOpt(i int) bool { return i < len(req.TypeOpts) && req.TypeOpts[i] }
+
 func serve(req *Req) Res {
 	res := Res{ID: req.ID}
 	for _, sr := range req.Schemas {
 		var out SchemaRes
-		s := jschema.New(sr.Name, sr.Text)
+		s := newSchema(sr.Name, sr.Text, sr.Opt)
 		for _, r := range req.Rules {
 			r := r
 			if e := call(func() string { return ErrString(s.AddRule(r[0], enum.New(r[0], r[1]))) }); e != "OK" && out.AddErr == "" {
@@ -117,12 +131,12 @@ func serve(req *Req) Res {
 		if req.Linked {
 			e := call(func() string {
 				uni := map[string]*jschema.Schema{}
-				for _, t := range req.Types {
+				for ti, t := range req.Types {
 					if sr.SelfAdd && t[0] == sr.Name {
 						uni[t[0]] = s
 						continue
 					}
-					ts := jschema.New(t[0], t[1])
+					ts := newSchema(t[0], t[1], req.typeOpt(ti))
 					for _, r := range req.Rules {
 						if err := ts.AddRule(r[0], enum.New(r[0], r[1])); err != nil {
 							return "rule " + r[0] + ": " + ErrString(err)
@@ -150,16 +164,16 @@ func serve(req *Req) Res {
 				out.AddErr = e
 			}
 		}
-		for _, t := range req.Types {
+		for ti, t := range req.Types {
 			if req.Linked {
 				break
 			}
-			t := t
+			t, topt := t, req.typeOpt(ti)
 			e := call(func() string {
 				if sr.SelfAdd && t[0] == sr.Name {
 					return ErrString(s.AddType(t[0], s))
 				}
-				ts := jschema.New(t[0], t[1])
+				ts := newSchema(t[0], t[1], topt)
 				for _, r := range req.Rules {
 					if err := ts.AddRule(r[0], enum.New(r[0], r[1])); err != nil {
 						return "rule " + r[0] + ": " + ErrString(err)
